@@ -134,7 +134,12 @@ STATEFUL += [   # calls of one user function that differ only in a keyword value
     ("0 + pw(x, p=2) + pw(x, p=3)", [("x_q2",), ("x_q3",)], False), ("0 + f:pw(x, p=2) + f:pw(x, p=3)", [("f", "x_q2"), ("f", "x_q3")], False),
     ("0 + pw(x, 2) + pw(x, 3)", [("x_q2",), ("x_q3",)], False), ("pw(x, p=2):g + pw(x, p=3)", [("x_q2", "g"), ("x_q3",)], True),
 ]
-KINDS2 = dict(KINDS, x_s="num", x_c="num", z_c="num", x_p1="num", x_p2="num", x_q2="num", x_q3="num")
+STATEFUL += [   # a factor with a single level in the data adds nothing next to an intercept or a fully coded factor; two poly() terms
+    ("g1", [("g1",)], True), ("x + g1", [("x",), ("g1",)], True), ("f + g1", [("f",), ("g1",)], True), ("C(g1) + x", [("g1",), ("x",)], True),
+    ("0 + f + g1", [("f",), ("g1",)], False), ("0 + g1 + x", [("g1",), ("x",)], False),
+    ("0 + poly(x, 2) + poly(z, 2)", [("x_p1",), ("x_p2",), ("z_p1",), ("z_p2",)], False), ("0 + poly(z, 3) + poly(x, 2)", [("z_p1",), ("z_p2",), ("z_p3",), ("x_p1",), ("x_p2",)], False),
+]
+KINDS2 = dict(KINDS, x_s="num", x_c="num", z_c="num", x_p1="num", x_p2="num", x_q2="num", x_q3="num", g1="cat", z_p1="num", z_p2="num", z_p3="num")
 
 
 def pw(v, p=1):
@@ -148,6 +153,9 @@ def _derived(d):
     e["z_c"] = d["z"] - d["z"].mean()
     e["x_p1"] = d["x"] - d["x"].mean()                          # orthogonal polynomials of degree 1, 2 span the centred x, x^2
     e["x_p2"] = d["x"] ** 2 - (d["x"] ** 2).mean()
+    e["g1"] = "only"
+    for k_ in (1, 2, 3):
+        e[f"z_p{k_}"] = d["z"] ** k_ - (d["z"] ** k_).mean()
     e["x_q2"] = d["x"] ** 2
     e["x_q3"] = d["x"] ** 3
     return e
@@ -164,6 +172,7 @@ def _stateful_chunk(task):
     warnings.simplefilter("ignore")
     rng = np.random.default_rng(seed)
     d0 = factorial_frame(rng, {"f": ["a", "b", "c"], "g": ["u", "v"], "h": ["p", "q", "r"]}, reps=3)
+    d0["g1"] = "only"
     d1, d2 = d0.copy(), d0.copy()
     d1["x"] = d0["x"] * 3 + 10
     d1["z"] = d0["z"] ** 2 + 1
@@ -214,11 +223,13 @@ def PROOFS():
     """The per-factor part of the coding under contract: a factor evaluated with spans_intercept gets the full indicator
     coding, otherwise the reduced one, chosen afresh at every evaluation (the redundancy analysis of contrasts.py that decides
     spans_intercept per term is NOT under contract: bounded tier only)."""
-    from ..contracts import categorical_c, variable_c, utils_c, matrices_c, call_resolver_c  # noqa: F401
+    from ..contracts import categorical_c, variable_c, utils_c, matrices_c, call_resolver_c, transforms_c  # noqa: F401
     return [("vf.contracts.categorical_c", categorical_c.FUNCTIONS),
             # columns of an interaction are the pairwise products; the matrix is the terms' blocks side by side, one term per name
             ("vf.contracts.utils_c", utils_c.FUNCTIONS),
             ("vf.contracts.matrices_c", ["formulae.matrices.CommonEffectsMatrix.__init__", "formulae.matrices.CommonEffectsMatrix.evaluate"]),
+            # every poly() term has its own parameter memo
+            ("vf.contracts.transforms_c", ["formulae.transforms.Polynomial.__init__"]),
             # which columns exist at all: two call terms are one term only if callee, arguments and keyword VALUES are equal
             ("vf.contracts.call_resolver_c", ["formulae.terms.call_resolver." + c for c in (
                 "LazyCall.__eq__", "LazyOperator.__eq__", "LazyValue.__eq__", "LazyVariable.__eq__", "LazyCall.__eq__#other", "LazyOperator.__eq__#other")]),
